@@ -68,7 +68,11 @@ func parseMetric(buf []byte, schemas persister.WhisperSchemas, orgId int) (*sche
 	name := elements[0]
 	tags := elements[1:]
 	sort.Strings(tags)
-	nameWithTags = fmt.Sprintf("%s;%s", name, strings.Join(tags, ";"))
+	// the name as graphite presents it: an untagged series has no trailing ';'
+	nameWithTags = name
+	if len(tags) > 0 {
+		nameWithTags = fmt.Sprintf("%s;%s", name, strings.Join(tags, ";"))
+	}
 	s, ok := schemas.Match(nameWithTags)
 	if !ok {
 		panic(fmt.Errorf("couldn't find a schema for %q - this is impossible since we asserted there was a default with patt .*", name))
